@@ -2,19 +2,22 @@
 C11 over histories WITHOUT `Mirror`, with LOST CHAINS, under ONE FAULT SCHEDULE — licences along a history.
 
 * `step_lic1`: one covered call from the invariant up to the schedule and lost chains (`VolInvX X (mclr s)`): its writes —
-  under whatever is scheduled, a device failure falling anywhere but inside `write` / `make_dir_in_dir` (`classL`) — are
+  under whatever is scheduled, WHATEVER device call fails — are
   `AllLicensed1` (FAT copy 2 unconstrained) by a licence `LicenceFor` describes in the state the call is issued in, and the
   medium afterwards is the medium before with these writes applied.  A failing call of `classL` writes a PREFIX of the
-  writes of the fault-free call (`FaultInv.step_faulted`), which are licensed (`Lic.step_callOK`, from the invariant with
+  writes of the fault-free call (`MPre`; for `write`: `MPw`, `Lemmas/LicXWriteP.lean`), which are licensed (`Lic.step_callOK`, from the invariant with
   lost chains, no `Mirror`).
 * `RunLic1` / `runLic1_of`: the same along a history, the invariant being `InvFE` (`Lemmas/FaultXRawRun.lean`), device
-  failures in calls of `classC` ∧ `classL` only.
+  failures in calls of `classC` only (anywhere but inside a truncating open); `make_dir_in_dir`, whose failed run
+  cleans up, is `Lemmas/LicXMkdirApi.mkdir_licF`.
 * `unnamed_unchanged_1`: an object no licence of the history names keeps its slot bytes, its chain AS READ THROUGH FAT
   COPY 1 and its chain bytes; `runLic1_mounts`: the medium keeps mounting.
 -/
 import Sdmmc.Lemmas.LicXFrame
 import Sdmmc.Lemmas.FaultXRawRun
 import Sdmmc.Lemmas.FaultHistLic
+import Sdmmc.Lemmas.LicXWriteP
+import Sdmmc.Lemmas.LicXMkdirApi
 
 namespace Sdmmc.Lemmas.VolX.Lic
 open Sdmmc.Model Sdmmc.Model.Fat Sdmmc.Spec.Volume
@@ -23,17 +26,92 @@ open Sdmmc.Lemmas.MHoare Sdmmc.Lemmas.FaultInv Sdmmc.Lemmas.Retry Sdmmc.Lemmas.F
 open Sdmmc.Lemmas.WriteSetInv (LicenceFor NotNamed NameCovered LicWF Spares Covers spares_of_avoids avoids_of block_ext run_cons)
 open Sdmmc.Lemmas.FaultX (InvF InvFE classC)
 
-/-- The calls in which a device failure is covered by the licence argument: all but `write` and `make_dir_in_dir` (whose
-failed runs are not truncated fault-free runs). -/
+/-- The calls in which a device failure is covered by the licence argument: all but `make_dir_in_dir` (whose failed run
+cleans up: it writes what the fault-free run never writes). -/
 def classL : Op → Bool
-  | .mkdir _ _ | .write _ _ => false
+  | .mkdir _ _ => false
   | _ => true
+
+/-- Every call of `classL` that writes at all satisfies `MPw`: its failed run writes a prefix of the fault-free run's
+writes. -/
+theorem runOp_mpw (op : Op) (hro : Fault.readOnlyOp op = false) (h : classL op = true) : MPw (runOp op) := by
+  cases op with
+  | write f b => exact MPw.bind (write_mpw f b) fun _ => MPw.pure _
+  | mkdir d n => cases h
+  | closeVolume v => exact .of_mpre (FaultPre.runOp_mpre _ rfl)
+  | openFile d n m => exact .of_mpre (FaultPre.runOp_mpre _ rfl)
+  | flush f => exact .of_mpre (FaultPre.runOp_mpre _ rfl)
+  | closeFile f => exact .of_mpre (FaultPre.runOp_mpre _ rfl)
+  | delete d n => exact .of_mpre (FaultPre.runOp_mpre _ rfl)
+  | read f n => cases hro
+  | openVolume i => cases hro
+  | label v => cases hro
+  | openRoot v => cases hro
+  | openDir d n => cases hro
+  | closeDir d => cases hro
+  | seekStart f n => cases hro
+  | seekCur f n => cases hro
+  | seekEnd f n => cases hro
+  | find d n => cases hro
+  | list d => cases hro
+  | listLfn d n => cases hro
+  | length f => cases hro
+  | offset f => cases hro
+  | eof f => cases hro
+  | hasOpen => cases hro
+
+/-- From `MPw` to `step`: the writes of the call under a schedule are a prefix of the writes of the call without it, and
+the medium afterwards is the medium before with the former applied. -/
+theorem step_pfx {s0 : Mgr} (hl : s0.locked = false) (hn : s0.dev.faults = []) (L : List Nat) (op : Op) (h : MPw (runOp op)) :
+    ∃ ws', (step s0 op).2.writes = (step (withFaults L s0) op).2.writes ++ ws' ∧
+      (step (withFaults L s0) op).1.dev.disk = s0.dev.disk.applyWrites (step (withFaults L s0) op).2.writes := by
+  rw [MHoare.step_unlocked (withFaults L s0) op hl, MHoare.step_unlocked s0 op hl, resetLogs_withFaults]
+  have hc : mclr (withFaults L (resetLogs s0)) = resetLogs s0 := mclr_withFaults (s0 := resetLogs s0) hn L
+  obtain ⟨wa, wb, hta, htb⟩ := h.pfx (withFaults L (resetLogs s0))
+  rw [hc] at htb
+  have hw1 : (runOp op (withFaults L (resetLogs s0))).2.dev.wlog.reverse = wa := by
+    have := hta.wlog
+    show (FaultPre.mfs (runOp op (withFaults L (resetLogs s0))).2).dev.wlog.reverse = wa
+    rw [this]; exact FaultInv.reverse_append_nil wa
+  have hw2 : (runOp op (resetLogs s0)).2.dev.wlog.reverse = wa ++ wb := by
+    have := htb.wlog
+    show (FaultPre.mfs (runOp op (resetLogs s0)).2).dev.wlog.reverse = wa ++ wb
+    rw [this]; exact FaultInv.reverse_append_nil _
+  refine ⟨wb, ?_, ?_⟩
+  · show (runOp op (resetLogs s0)).2.dev.wlog.reverse = (runOp op (withFaults L (resetLogs s0))).2.dev.wlog.reverse ++ wb
+    rw [hw1, hw2]
+  · show (runOp op (withFaults L (resetLogs s0))).2.dev.disk =
+      s0.dev.disk.applyWrites (runOp op (withFaults L (resetLogs s0))).2.dev.wlog.reverse
+    rw [hw1]; exact hta.disk
 
 variable {X : List (List Nat)}
 
-/-- **One call from the invariant up to the schedule and lost chains.** -/
-theorem step_lic1 {s : Mgr} {gh : Ghost} (hI : VolInvX X (mclr s) gh) (op : Op) (hc : FCovered s op)
-    (hL : (step s op).1.dev.failed ≠ s.dev.failed → classL op = true) :
+/-- **`make_dir_in_dir` through `step`**, under any schedule. -/
+theorem step_mkdir_lic1 {s : Mgr} {gh : Ghost} (hI : VolInvX X (mclr s) gh) (d : Nat) (name : List Nat)
+    (hname : ∀ sfn, Sfn.createFromStr name = .ok sfn → sfn.head? ≠ some 0xE5) :
+    ∃ L, LicenceFor gh s.files s.dirs s.dev.disk (.mkdir d name) L ∧
+      AllLicensed1 gh.vol s.dev.disk L (step s (.mkdir d name)).2.writes ∧
+      (∀ i, (step s (.mkdir d name)).1.dev.disk.get i = (s.dev.disk.applyWrites (step s (.mkdir d name)).2.writes).get i) := by
+  have hI0 := VolX.volInv_resetLogs hI
+  obtain ⟨L, hLF, ws, hw, hd, hal⟩ := mkdir_licF hI0 s.dev.faults d name hname
+  have e0 : withFaults s.dev.faults (resetLogs (mclr s)) = resetLogs s := by
+    rw [← resetLogs_withFaults, withFaults_mclr]
+  rw [e0] at hw hd
+  have hw' : (runOp (.mkdir d name) (resetLogs s)).2.dev.wlog.reverse = ws := by
+    rw [WriteSet.runOp_mkdir, hw]
+    show (ws.reverse ++ []).reverse = ws
+    rw [List.append_nil, List.reverse_reverse]
+  have hl : s.locked = false := hI.unlocked
+  rw [MHoare.step_unlocked s _ hl]
+  refine ⟨L, hLF, ?_, fun i => ?_⟩
+  · show AllLicensed1 gh.vol s.dev.disk L (runOp (.mkdir d name) (resetLogs s)).2.dev.wlog.reverse
+    rw [hw']; exact hal
+  · show (runOp (.mkdir d name) (resetLogs s)).2.dev.disk.get i =
+      (s.dev.disk.applyWrites (runOp (.mkdir d name) (resetLogs s)).2.dev.wlog.reverse).get i
+    rw [hw', WriteSet.runOp_mkdir, hd]; rfl
+
+/-- **One call from the invariant up to the schedule and lost chains** — whatever device call fails. -/
+theorem step_lic1 {s : Mgr} {gh : Ghost} (hI : VolInvX X (mclr s) gh) (op : Op) (hc : FCovered s op) :
     ∃ L, LicenceFor gh s.files s.dirs s.dev.disk op L ∧ AllLicensed1 gh.vol s.dev.disk L (step s op).2.writes ∧
       (∀ i, (step s op).1.dev.disk.get i = (s.dev.disk.applyWrites (step s op).2.writes).get i) := by
   have hnc := nameCovered_of_fcovered hc
@@ -44,20 +122,44 @@ theorem step_lic1 {s : Mgr} {gh : Ghost} (hI : VolInvX X (mclr s) gh) (op : Op) 
     refine ⟨L, hS.lic, ?_, fun i => ?_⟩
     · rw [← e1]; exact hS.all
     · rw [hd, ← e1]; exact hS.disk i
-  · have hcl := hL hq
-    by_cases hro : Fault.readOnlyOp op = true
+  · by_cases hro : Fault.readOnlyOp op = true
     · obtain ⟨hd, hw⟩ := Fault.step_readonly_nowrite s op hro
       exact ⟨Licence.none, .nothing op, by rw [hw]; trivial, fun i => by rw [hd, hw]; rfl⟩
-    · have hpre : FaultPre.prefixOp op = true := by
-        cases op <;> first | rfl | exact absurd rfl hro | cases hcl
-      have hsf := FaultInv.step_faulted (s0 := mclr s) hI.unlocked hI.noFault s.dev.faults op hpre
-      rw [withFaults_mclr] at hsf
-      rcases hsf with ⟨h1, _⟩ | ⟨_, _, ws', hws, hdisk, _⟩
-      · exact absurd h1 hq
-      · refine ⟨L, hS.lic, ?_, fun i => by rw [hdisk]; rfl⟩
+    · have hro' : Fault.readOnlyOp op = false := by
+        cases h : Fault.readOnlyOp op
+        · rfl
+        · exact absurd h hro
+      by_cases hcl : classL op = true
+      · obtain ⟨ws', hws, hdisk⟩ := step_pfx (s0 := mclr s) hI.unlocked hI.noFault s.dev.faults op (runOp_mpw op hro' hcl)
+        rw [withFaults_mclr] at hws hdisk
+        refine ⟨L, hS.lic, ?_, fun i => by rw [hdisk]; rfl⟩
         have hall := hS.all
         rw [hws] at hall
         exact ((WriteSet1.allLicensed_append _ _ _ _ _).1 hall).1
+      · cases op with
+        | mkdir d name => exact step_mkdir_lic1 hI d name hc
+        | write f b => exact absurd rfl hcl
+        | closeVolume v => exact absurd rfl hcl
+        | openFile d n m => exact absurd rfl hcl
+        | flush f => exact absurd rfl hcl
+        | closeFile f => exact absurd rfl hcl
+        | delete d n => exact absurd rfl hcl
+        | read f n => exact absurd rfl hcl
+        | openVolume i => exact absurd rfl hcl
+        | label v => exact absurd rfl hcl
+        | openRoot v => exact absurd rfl hcl
+        | openDir d n => exact absurd rfl hcl
+        | closeDir d => exact absurd rfl hcl
+        | seekStart f n => exact absurd rfl hcl
+        | seekCur f n => exact absurd rfl hcl
+        | seekEnd f n => exact absurd rfl hcl
+        | find d n => exact absurd rfl hcl
+        | list d => exact absurd rfl hcl
+        | listLfn d n => exact absurd rfl hcl
+        | length f => exact absurd rfl hcl
+        | offset f => exact absurd rfl hcl
+        | eof f => exact absurd rfl hcl
+        | hasOpen => exact absurd rfl hcl
 
 /-! ### Histories -/
 
@@ -73,25 +175,15 @@ inductive RunLic1 (v0 : FatVolume) : Mgr → List Op → List Licence → Prop
       (hd : ∀ i, (step s op).1.dev.disk.get i = (s.dev.disk.applyWrites (step s op).2.writes).get i)
       (rest : RunLic1 v0 (step s op).1 ops Ls) : RunLic1 v0 s (op :: ops) (L :: Ls)
 
-/-- Device failures occur only during calls of both classes. -/
-def FailsOnlyInCL : Mgr → List Op → Prop
-  | _, [] => True
-  | s, op :: ops => ((step s op).1.dev.failed ≠ s.dev.failed → classC op = true ∧ classL op = true) ∧
-      FailsOnlyInCL (step s op).1 ops
-
-theorem failsOnlyInC_of : ∀ (ops : List Op) (s : Mgr), FailsOnlyInCL s ops → FailsOnlyIn classC s ops
-  | [], _, _ => trivial
-  | _ :: ops, _, h => ⟨fun hne => (h.1 hne).1, failsOnlyInC_of ops _ h.2⟩
-
-/-- **Every covered history whose device failures fall in calls of `classC` ∧ `classL` only is licensed**, and `InvFE` holds
-at its end. -/
+/-- **Every covered history whose device failures fall in calls of `classC` only (anywhere but inside a truncating open) is
+licensed**, and `InvFE` holds at its end. -/
 theorem runLic1_of (v0 : FatVolume) : ∀ (ops : List Op) {s : Mgr} {gh : Ghost}, InvFE gh s → SameGeom v0 gh.vol →
-    CoveredRunF s ops → FailsOnlyInCL s ops → ∃ Ls, RunLic1 v0 s ops Ls ∧ InvFE gh (run s ops).1
+    CoveredRunF s ops → FailsOnlyIn classC s ops → ∃ Ls, RunLic1 v0 s ops Ls ∧ InvFE gh (run s ops).1
   | [], s, gh, hI, _, _, _ => ⟨[], .nil s, hI⟩
   | op :: ops, s, gh, hI, hg, hc, hf => by
     obtain ⟨⟨gh1, X1, hI1, hg1⟩, hR⟩ := hI
-    obtain ⟨L, hlic, hall, hdisk⟩ := step_lic1 hI1 op hc.1 (fun hne => (hf.1 hne).2)
-    obtain ⟨hE1, _⟩ := FaultX.step_inv_C ⟨⟨gh1, X1, hI1, hg1⟩, hR⟩ op hc.1 (fun hne => (hf.1 hne).1)
+    obtain ⟨L, hlic, hall, hdisk⟩ := step_lic1 hI1 op hc.1
+    obtain ⟨hE1, _⟩ := FaultX.step_inv_C ⟨⟨gh1, X1, hI1, hg1⟩, hR⟩ op hc.1 hf.1
     obtain ⟨Ls, hRun, hE2⟩ := runLic1_of v0 ops hE1 hg hc.2 hf.2
     refine ⟨L :: Ls, .cons s op ops L Ls gh1 X1 hI1 (hg.trans hg1) hlic
       ((WriteSet1.allLicensed_sameGeom (hg.trans hg1) L _ _).1 hall) hdisk hRun, ?_⟩
